@@ -326,6 +326,13 @@ class Exec:
                 return ("modfunc", e.id)
             if self.tr.class_node(self.module, e.id) is not None:
                 return ("class", e.id)
+            mc = self.tr.module_consts(self.module)
+            if e.id in mc:       # a module-level constant (assigned exactly once at top level): evaluated where it is used
+                sub = Exec(self.tr, self.module, None, "<module>", {}, {})
+                v = sub.expr(mc[e.id])
+                if not (isinstance(v, N) and v.shape == "S"):
+                    raise Untranslatable(f"module-level name {e.id} is not a numeric constant", e)
+                return v
             if e.id in ("len", "float", "any", "super", "int", "isinstance"):
                 return ("builtin", e.id)
             if e.id in ("math", "np", "numpy", "torch", "jnp", "jax", "jrandom", "torch_api"):
@@ -662,9 +669,10 @@ class Exec:
         mcls, fn = m
         if any("cache" in ast.unparse(d) for d in fn.decorator_list):
             raise Untranslatable(f"{cls}.{name} is memoised", e)
-        params = [a.arg for a in fn.args.args][1:]
+        is_static = any(ast.unparse(d) == "staticmethod" for d in fn.decorator_list)
+        params = [a.arg for a in fn.args.args][(0 if is_static else 1):]     # a static helper has no `self`
         defaults = fn.args.defaults
-        env = {"self": obj}
+        env = {} if is_static else {"self": obj}
         dmap = dict(zip(params[len(params) - len(defaults):], defaults))
         for p, a in zip(params, e.args):
             env[p] = self.expr(a)
@@ -896,6 +904,24 @@ class Translator:
             p = self.srcdir / (module.replace(".", "/") + ".py")
             self.trees[module] = ast.parse(p.read_text())
         return self.trees[module]
+
+    def module_consts(self, module):
+        """Top-level `NAME = <expr>` bindings of a module that are assigned exactly once (and never declared global in a function)."""
+        tree = self.tree(module)
+        count, val = {}, {}
+        for n in tree.body:
+            targets = []
+            if isinstance(n, ast.Assign):
+                targets = [t for t in n.targets]
+            elif isinstance(n, (ast.AugAssign, ast.AnnAssign)):
+                targets = [n.target]
+            for t in targets:
+                if isinstance(t, ast.Name):
+                    count[t.id] = count.get(t.id, 0) + 1
+                    if isinstance(n, ast.Assign) and len(n.targets) == 1:
+                        val[t.id] = n.value
+        globs = {name for n in ast.walk(tree) if isinstance(n, ast.Global) for name in n.names}
+        return {k: v for k, v in val.items() if count.get(k) == 1 and k not in globs}
 
     def module_funcs(self, module):
         return {n.name: n for n in self.tree(module).body if isinstance(n, ast.FunctionDef)}
